@@ -50,7 +50,9 @@ def main(argv=None):
     for name in (only or NAMES):
         for sh in shapes(chk.tier, name):
             tasks.append({'module': 'props.c14', 'fn': 'vc_task', 'name': f'{name}/n{sh.n}s{sh.S}b{sh.B}r{sh.R}', 'contract': name,
-                          'shape': sh.as_dict(), 'timeout_ms': 120000 if chk.tier == 'thorough' else 30000, 'weight': sh.n * sh.B})
+                          'shape': sh.as_dict(), 'weight': sh.n * sh.B,
+                          # the row clause of deal_board needs ~25 s on an idle core: budget with head-room
+                          'timeout_ms': 300000 if chk.tier == 'thorough' else (150000 if name == 'deal_board' else 30000)})
     chk.run_tasks(tasks)
     chk.assumptions += [
         'runout_count is "what the players who have spoken so far agree on" by induction over the selections (fresh hand: None)',
